@@ -52,19 +52,19 @@ MANIFEST = {
 }
 
 
-def _spec(n, axis, masked, label):
+def _spec(n, axis, masked, label, fill=-999.0):
     if axis == 0:
         dims = [('t', n, True), ('x', 2, False)]
         sd = 't'
         vs = [VarSpec('A', ('t', 'x'), attrs={'units': 'ppb'}),
-              VarSpec('M', ('t', 'x'), masked=masked),
+              VarSpec('M', ('t', 'x'), masked=masked, fill=fill),
               VarSpec('X', ('x',), attrs={'units': 'm'}),
               VarSpec('t', ('t',), coord=True)]
     else:
         dims = [('t', 2, True), ('x', n, False)]
         sd = 'x'
         vs = [VarSpec('A', ('t', 'x'), attrs={'units': 'ppb'}),
-              VarSpec('M', ('x', 't'), masked=masked),
+              VarSpec('M', ('x', 't'), masked=masked, fill=fill),
               VarSpec('T', ('t',)),
               VarSpec('S', ())]
     return FileSpec(dims, vs, attrs={'title': 'test'}, label=label), sd
@@ -78,13 +78,16 @@ class SplitStack(common.SpaceMixin, Obligation):
     validate_paths = 6
     twin_modules = ('PseudoNetCDF.core._files', 'PseudoNetCDF.core._functions')
 
-    def __init__(self, n, axis, masked, K, form='method'):
+    def __init__(self, n, axis, masked, K, form='method', fill=-999.0):
         self.spec, self.sd = _spec(n, axis, masked,
                                    'n%d_ax%d_m%s' % (n, axis, '.'.join(
-                                       map(str, masked))))
+                                       map(str, masked))), fill=fill)
         self.n, self.K, self.form = n, K, form
-        self.name = 'split-stack[%s|K=%d|%s]' % (self.spec.label, K, form)
-        self.bounds = {'n': n, 'K': K, 'axis': axis, 'masked': masked}
+        self.name = 'split-stack[%s|K=%d|%s%s]' % (
+            self.spec.label, K, form, '' if fill == -999.0 else
+            '|fill=%r' % fill)
+        self.bounds = {'n': n, 'K': K, 'axis': axis, 'masked': masked,
+                       'fill value': fill}
 
     def _cuts(self, ctx):
         cs = [ctx.int('p%d' % i, 1, self.n - 1) for i in range(self.K - 1)]
@@ -191,13 +194,20 @@ class Concat(common.SpaceMixin, Obligation):
     twin_modules = ('PseudoNetCDF.core._files', 'PseudoNetCDF.core._functions',
                     'PseudoNetCDF._getreader')
 
-    def __init__(self, lens, axis, masks, form='method', paths=None):
+    def __init__(self, lens, axis, masks, form='method', paths=None,
+                 fill=-999.0):
         self.lens, self.axis, self.masks, self.form = lens, axis, masks, form
         self.paths = paths
+        # a path given more than once names the same file each time
+        self.order = [paths.index(p) for p in paths] if paths else \
+            list(range(len(lens)))
         self.specs = []
         for k, (n, m) in enumerate(zip(lens, masks)):
-            sp, self.sd = _spec(n, axis, m, 'f%d' % k)
+            k0 = self.order[k]
+            sp, self.sd = _spec(lens[k0], axis, masks[k0], 'f%d' % k,
+                                fill=fill)
             self.specs.append(sp)
+        self.lens = lens = tuple(lens[k0] for k0 in self.order)
         self.name = 'concat[%s|ax%d|masks=%s|%s%s]' % (
             '+'.join(map(str, lens)), axis,
             '/'.join('.'.join(map(str, m)) if m is not None else '-'
@@ -243,6 +253,8 @@ class Concat(common.SpaceMixin, Obligation):
             vals = common.sym_values(ctx, spec, prefix='f%d' % k)
             files.append(common.build(F, spec, vals, True))
             srcs.append(common.source_arrays(spec, vals, True))
+        files = [files[i] for i in self.order]
+        srcs = [srcs[i] for i in self.order]
         try:
             st = self.profiled(self._stack, files, sf, rm)
         except Exception as ex:
@@ -269,6 +281,8 @@ class Concat(common.SpaceMixin, Obligation):
                     vals[key] = vals[key] + 100000.0 * k
             files.append(common.build(RF.PseudoNetCDFFile, spec, vals, False))
             srcs.append(common.source_arrays(spec, vals, False))
+        files = [files[i] for i in self.order]
+        srcs = [srcs[i] for i in self.order]
         viol = {}
 
         def claim(label, e):
@@ -325,4 +339,14 @@ def obligations(tier):
         lens = (1, 2) if len(paths) == 2 else (1, 1, 2)
         masks = ((), (0,)) if len(paths) == 2 else ((), (), (1,))
         obs.append(Concat(lens, 0, masks, 'pncmfopen', paths))
+    # the same path listed more than once: its block appears each time
+    obs.append(Concat((1, 2, 2, 1), 0, ((), (0,), (0,), (1,)), 'pncmfopen',
+                      ['a.nc', 'b.nc', 'b.nc', 'c.nc']))
+    obs.append(Concat((2, 2), 0, ((1,), (1,)), 'pncmfopen',
+                      ['a.nc', 'a.nc']))
+    # a masked variable whose fill value is 0 (falsy)
+    for form in ('method', 'function'):
+        obs.append(Concat((1, 2), 0, ((0,), (0, 3)), form, fill=0.0))
+        obs.append(SplitStack(3, 0, (4, 5), 2, form, fill=0.0))
+    obs.append(SplitStack(3, 1, (0,), 3, 'method', fill=0.0))
     return obs
